@@ -343,6 +343,7 @@ class Runner:
 
     def __init__(self, ctx, prop, oracle):
         self.ctx, self.prop, self.oracle = ctx, prop, oracle
+        self.searching = False     # inside search_from_divergence: oracle only, no model comparison
 
     def run(self, exe, cases, compare=True, timeout=900):
         """returns per case: (impl blocks of its schedule lines, model blocks or None)"""
@@ -370,7 +371,7 @@ class Runner:
         """run, evaluate the oracle on every schedule run, compare with the model; records evidence and
         reports (after shrinking) the first failure / mismatch of the batch.  Returns the per-case impl blocks."""
         ctx = self.ctx
-        out = self.run(exe, cases, compare)
+        out = self.run(exe, cases, compare and not self.searching)
         for c, (ib, mb, bad) in zip(cases, out):
             if ctx.stop():
                 break
@@ -407,10 +408,56 @@ class Runner:
                             return r[1] is not None and ctx.observable(r[0][0]) != ctx.observable(r[1][0])
                         small = self.shrink(exe, one, None, differs)
                         r = self.run(exe, [small], compare=True)[0]
+                        # model and implementation disagree while the oracle accepts this run: look for a schedule of
+                        # the diverging program on which the implementation itself violates the property (DESIGN 2.5)
+                        if self.search_from_divergence(exe, [small, one]):
+                            break
                         ctx.mismatches.append((Case(ENGINE, small.lines(), c.origin),
                                                "implementation %r, model %r" % (ctx.observable(r[0][0]), ctx.observable(r[1][0]) if r[1] else None)))
                         break
         return out
+
+    def search_from_divergence(self, exe, cases, bound=1, limit=1500, nrandom=300):
+        """`cases` (one schedule each) make the model and the implementation differ without an oracle failure.  Search
+        the schedules of the same programs - and, for a pool, of the programs without stop(), which would release
+        whoever is stuck - for a run that fails the oracle: the given schedules first, then every schedule within
+        `bound` preemptions, then random ones.  True when a concrete failing input was reported."""
+        if self.searching:
+            return False
+        ctx = self.ctx
+        before = len(ctx.oracle_failures)
+        self.searching = True
+        try:
+            variants, seen = [], set()
+            for c in cases:
+                vs = [c]
+                if c.kind() == "pool" and any("stop" in ops for ops in c.threads):
+                    th = [[op for op in ops if op != "stop"] for ops in c.threads]
+                    while th and not th[-1]:
+                        th.pop()
+                    if th:
+                        vs.append(MCase(c.obj, th, c.schedules, c.spurious, c.origin))
+                for v in vs:
+                    key = (v.obj, tuple(tuple(t) for t in v.threads), v.spurious)
+                    if key not in seen:
+                        seen.add(key)
+                        variants.append(v)
+            for v in variants:
+                v.origin = "search:schedules-of-the-diverging-program"
+                ctx.count("divergence_searches")
+                self.judge(exe, [v], compare=False)
+                if len(ctx.oracle_failures) > before:
+                    return True
+                self.explore(exe, v.with_schedules([]), bound, limit)
+                if len(ctx.oracle_failures) > before:
+                    return True
+                scheds = [random_schedule(ctx.rng, ctx.rng.randint(1, 40), ctx.rng.random() < 0.5) for _ in range(nrandom)]
+                self.judge(exe, [v.with_schedules(scheds)], compare=False)
+                if len(ctx.oracle_failures) > before:
+                    return True
+            return False
+        finally:
+            self.searching = False
 
     def shrink(self, exe, case, bad_trace=None, bad_case=None):
         """delta debugging on the operations of all threads, then on the schedule; the failure kind must persist"""
